@@ -483,7 +483,8 @@ pub mod handlers {
 //@ ensures[C17] !control_consistent(request) ==> err_code(r) == Some(Code::InvalidArgument)
 //@ ensures[C17,C05] !ids_ok(request.ack_ids@) || !pairs_ok(request.modify_deadline_ack_ids@, request.modify_deadline_seconds@) ==> err_code(r) == Some(Code::InvalidArgument)
 //@ # C02: OK means the subscription was handed exactly the ack ids of the message, in order ...
-//@ ensures[C02] r.is_ok() && request.ack_ids@.len() > 0 ==> exists|ids: Seq<AckId>| #[trigger] acked(*subscription, ids) && ids.len() == request.ack_ids@.len() && forall|i: int| #![trigger ids[i]] 0 <= i < ids.len() ==> ids[i].v() == parsed::<u64>(request.ack_ids@[i]@).unwrap()
+//@ # (stated with the ids in request order - more than C02 needs, which is the same set of ids: NEEDS-WITNESS, see DESIGN §13)
+//@ ensures[C02,NEEDS-WITNESS] r.is_ok() && request.ack_ids@.len() > 0 ==> exists|ids: Seq<AckId>| #[trigger] acked(*subscription, ids) && ids.len() == request.ack_ids@.len() && forall|i: int| #![trigger ids[i]] 0 <= i < ids.len() ==> ids[i].v() == parsed::<u64>(request.ack_ids@[i]@).unwrap()
 //@ # C05: ... and one modification per (ack id, seconds) pair, in order, each as the per-pair rule says
 //@ ensures[C05] r.is_ok() && request.modify_deadline_ack_ids@.len() > 0 ==> exists|mods: Seq<DeadlineModification>, now: int| #![trigger modified(*subscription, mods), stream_mods_ok(now, request.modify_deadline_ack_ids@, request.modify_deadline_seconds@, mods)] modified(*subscription, mods) && stream_mods_ok(now, request.modify_deadline_ack_ids@, request.modify_deadline_seconds@, mods)
 //@ closure 1 ret a: Result<AckId, Status>
@@ -509,7 +510,8 @@ pub mod handlers {
 //@ ensures[C10] (match parsed_name(request.m.subscription@) { Some(n) => ids_ok(request.m.ack_ids@) && (lookup(*self.subscription_manager, n) matches Err(GetSubscriptionError::DoesNotExist)) ==> err_code(r) == Some(Code::NotFound), None => true })
 //@ # C02: OK means that the subscription the name denotes was handed exactly the ack ids of the request, in order
 //@ ensures[C10] r.is_ok() ==> parsed_name(request.m.subscription@).is_some() && lookup(*self.subscription_manager, parsed_name(request.m.subscription@).unwrap()).is_ok()
-//@ ensures[C02] r.is_ok() && request.m.ack_ids@.len() > 0 ==> exists|s: Arc<Subscription>, ids: Seq<AckId>| #[trigger] acked(*s, ids) && lookup(*self.subscription_manager, parsed_name(request.m.subscription@).unwrap()) == Ok::<Arc<Subscription>, GetSubscriptionError>(s) && ids.len() == request.m.ack_ids@.len() && forall|i: int| #![trigger ids[i]] 0 <= i < ids.len() ==> ids[i].v() == parsed::<u64>(request.m.ack_ids@[i]@).unwrap()
+//@ # (stated with the ids in request order - more than C02 needs: NEEDS-WITNESS)
+//@ ensures[C02,NEEDS-WITNESS] r.is_ok() && request.m.ack_ids@.len() > 0 ==> exists|s: Arc<Subscription>, ids: Seq<AckId>| #[trigger] acked(*s, ids) && lookup(*self.subscription_manager, parsed_name(request.m.subscription@).unwrap()) == Ok::<Arc<Subscription>, GetSubscriptionError>(s) && ids.len() == request.m.ack_ids@.len() && forall|i: int| #![trigger ids[i]] 0 <= i < ids.len() ==> ids[i].v() == parsed::<u64>(request.m.ack_ids@[i]@).unwrap()
 //@ proof-after /\.collect::<Result<Vec<_>, Status>>\(\)\?;/ { assert forall|i: int| 0 <= i < request.ack_ids@.len() implies parsed::<u64>((#[trigger] request.ack_ids@[i])@).is_some() by { let x = ack_ids@[i]; } }
 //@ closure 1 ret a: Result<AckId, Status>
 //@ closure 1 ensures (match a { Ok(x) => parsed::<u64>($1@).is_some() && x.v() == parsed::<u64>($1@).unwrap(), Err(e) => parsed::<u64>($1@).is_none() && e.code == Code::InvalidArgument })
